@@ -453,7 +453,10 @@ func loadFindings() []Finding {
 func matchFinding(fs []Finding, prop, class string) *Finding {
 	for i := range fs {
 		f := &fs[i]
-		if f.Property == prop && f.Status == "known" && f.Class == class {
+		if f.Property != prop || f.Status != "known" {
+			continue
+		}
+		if f.Class == class || (strings.HasSuffix(f.Class, "*") && strings.HasPrefix(class, strings.TrimSuffix(f.Class, "*"))) {
 			return f
 		}
 	}
